@@ -104,7 +104,10 @@ class C07(Prop):
             return bytes(b), "INVALID", tag, d
         if cls in ("flip_model", "unknown_model"):
             if cls == "unknown_model":
-                b[74:76] = r.choice([b"\xff\xff", b"\x00\x00", b"\x03\x18", b"\x0c\x03", r.randbytes(2)])
+                unk = r.choice([b"\xff\xff", b"\x00\x00", b"\x03\x18", b"\x0c\x03", r.randbytes(2)])
+                while unk in rb.CODE_TO_MODEL:     # two random bytes can spell a known model: then it would not be this class
+                    unk = r.randbytes(2)
+                b[74:76] = unk
             else:
                 b[flip_pos] ^= flip_bit
             return bytes(b), ("UNSPEC" if bytes(b[74:76]) in rb.CODE_TO_MODEL else "INVALID"), tag, d
